@@ -3,6 +3,7 @@ package main
 func init() { register("C10", propC10) }
 
 func propC10(c *Ctx) propInfo {
+	c.guardPolarity("tl", "liteclient")
 	c.tlSchema()
 	c.tlPrimitives()
 	c.floor("E4b.tl-primitives", 25)
